@@ -67,7 +67,10 @@
                     request phase, view of the response phase) -- the distinct
                     observations of the two-phase probe transactions,
       tree        : list (p, q) -- q lies below p, for the paths of this case)
-     path = (area code, interned relative name), content = interned bytes. *)
+     path = (area code, interned relative name), content = interned bytes.
+   [run_case] refuses (mismatch, result code 3) a case whose disk before lists
+   a path twice or lists a path below another listed path under its own
+   [tree] list ([case_before_ok]); otherwise it is [run_case_on_tree]. *)
 From Coq Require Import List NArith Bool Arith.
 Import ListNotations.
 
@@ -505,6 +508,18 @@ Section Model.
   Definition tree (d : disk) : Prop :=
     forall p q, lookup p d <> None -> lookup q d <> None -> under p q = false.
 
+  (* [tree], decided: every ordered pair of listed paths (a path with itself
+     included, as in [tree]) -- reflection lemma TreeCheck.treeb_spec *)
+  Definition treeb (d : disk) : bool :=
+    forallb (fun e => forallb (fun e' => negb (under (fst e) (fst e'))) d) d.
+
+  (* no path is listed twice (TreeCheck.distinct_keysb_spec: NoDup of the keys) *)
+  Fixpoint distinct_keysb (d : disk) : bool :=
+    match d with
+    | [] => true
+    | e :: r => negb (has_key (fst e) r) && distinct_keysb r
+    end.
+
   (* a payload file whose name makes a file of a directory or a directory of a
      file: its target lies below, or above, a file of the disk or another
      target of the payload *)
@@ -550,6 +565,8 @@ Arguments base {B}.
 Arguments is_dir {B}.
 Arguments file_above {B}.
 Arguments tree {B}.
+Arguments treeb {B}.
+Arguments distinct_keysb {B}.
 Arguments type_conflict {B}.
 
 (* ---------------------------------------------------------------- correspondence *)
@@ -684,7 +701,9 @@ Definition whole_span (s : st N) : list span_obs :=
 Definition c_under (pairs : list (cpath * cpath)) (p q : path) : bool :=
   existsb (fun x => path_eqb (path_of (fst x)) p && path_eqb (path_of (snd x)) q) pairs.
 
-Definition run_case (k : case) : option (N * disk N * list (list (N * N)) * list span_obs) :=
+(* the comparison proper; [run_case] below evaluates it only on a case whose
+   [before] disk is a tree *)
+Definition run_case_on_tree (k : case) : option (N * disk N * list (list (N * N)) * list span_obs) :=
   let '(hd, before, payload, bads, fault, hints, obs, obs_spans, pairs) := k in
   let '(hs, hint) := hints in
   let '(h, method_ok, body_ok) := hd in
@@ -709,3 +728,16 @@ Definition run_case (k : case) : option (N * disk N * list (list (N * N)) * list
      && forallb (fun w => existsb (span_obs_eqb w) obs_spans) (whole_span s)
   then None
   else Some (result_code r, normalize (dsk s), views, mspans).
+
+(* the [before] disk of a case is a file system: no path listed twice, no file
+   below another file (under the tree structure [pairs] of the same case) *)
+Definition case_before_ok (k : case) : bool :=
+  let '(_, before, _, _, _, _, _, _, pairs) := k in
+  distinct_keysb (c_disk before) && treeb (c_under pairs) (c_disk before).
+
+(* what every shard of the suite evaluates.  A case whose [before] disk is not
+   a tree is a mismatch whatever the gateway did (result code 3, nothing
+   else): the hypothesis [tree] of the disk theorems is enforced per case
+   (C08_accepted_case_disk_is_a_tree), not trusted. *)
+Definition run_case (k : case) : option (N * disk N * list (list (N * N)) * list span_obs) :=
+  if case_before_ok k then run_case_on_tree k else Some (3%N, [], [], []).
